@@ -29,7 +29,7 @@ REPO = Path(os.environ.get("VERIF_REPO", "/repo"))
 ALLOWED_AXIOMS = {"propext", "Classical.choice", "Quot.sound"}
 FLAG = {"GOOD": ".good", "UNKNOWN": ".unknown", "SUSPECT": ".suspect", "FAIL": ".fail", "MISSING": ".missing"}
 PYOP = {"add": ".add", "sub": ".sub", "mul": ".mul", "truediv": ".truediv", "pow": ".pow"}
-PIN_PROPS = {"C01": ["flag_codes"], "C04": ["flag_codes", "priorities", "src_qartod_compare"], "C19": ["cf_safe"], "C20": ["fx_ops"], "C08": ["src_climatology_test"],
+PIN_PROPS = {"C01": ["flag_codes"], "C04": ["flag_codes", "priorities", "src_qartod_compare"], "C19": ["cf_safe"], "C20": ["fx_ops"], "C08": ["src_climatology_test"], "C07": ["config_layout"],
              "C03": ["defaults_valid", "src_gross_range_test", "src_valid_range_test"], "C09": ["default_spike", "src_spike_test"],
              "C11": ["default_flat", "src_flat_line_test"], "C12": ["default_atten", "src_attenuated_signal_test"], "C14": ["default_location", "src_location_test"],
              "C10": ["src_rate_of_change_test", "src_speed_test"], "C13": ["src_density_inversion_test", "src_pressure_increasing_test"]}
@@ -188,6 +188,45 @@ def _is_num(x):
     return isinstance(x, (int, float)) and not isinstance(x, bool) and float(x) == int(x)
 
 
+def config_layout():
+    """The `if … elif … elif … else` chain of Config.__init__ (keys, order, depth threshold; every branch must build its
+    ContextConfig in the form the model reads) and the default of `default_stream_key`: ([("contexts", k) | ("streams", k) | ("depth", n)], key)."""
+    for node in _parse("ioos_qc/config.py").body:
+        if isinstance(node, ast.ClassDef) and node.name == "Config":
+            init = next((n for n in node.body if isinstance(n, ast.FunctionDef) and n.name == "__init__"), None)
+            if init is None:
+                return None
+            names = [a.arg for a in init.args.args]
+            if "default_stream_key" not in names:
+                return None
+            dflt = init.args.defaults[len(init.args.defaults) - (len(names) - names.index("default_stream_key"))]
+            if not (isinstance(dflt, ast.Constant) and isinstance(dflt.value, str)):
+                return None
+            chain = []
+            for n in ast.walk(init):
+                if isinstance(n, ast.If) and ast.unparse(n.test) == "'contexts' in self.config":
+                    cur = n
+                    while True:
+                        t, body = ast.unparse(cur.test), " ".join(ast.unparse(b) for b in cur.body)
+                        m = re.fullmatch(r"'(\w+)' in self\.config", t)
+                        if m and f"for c in self.config['{m.group(1)}']:" in body and "ContextConfig(c).calls" in body:
+                            chain.append(("contexts", m.group(1)))
+                        elif m and "ContextConfig(self.config).calls" in body:
+                            chain.append(("streams", m.group(1)))
+                        elif re.fullmatch(r"dict_depth\(self\.config\) >= (\d+)", t) and "ContextConfig(odict(streams=self.config)).calls" in body:
+                            chain.append(("depth", int(re.fullmatch(r"dict_depth\(self\.config\) >= (\d+)", t).group(1))))
+                        else:
+                            return None
+                        if len(cur.orelse) == 1 and isinstance(cur.orelse[0], ast.If):
+                            cur = cur.orelse[0]
+                            continue
+                        tail = " ".join(ast.unparse(b) for b in cur.orelse)
+                        if "ContextConfig(odict(streams={default_stream_key: self.config})).calls" not in tail:
+                            return None
+                        return [chain, dflt.value]
+    return None
+
+
 def defaults_valid():
     d = sig_defaults("ioos_qc/axds.py", "valid_range_test", ["start_inclusive", "end_inclusive"])
     if d is None or not all(isinstance(v, bool) for v in d.values()):
@@ -227,7 +266,7 @@ def _src(name):
     return f
 
 
-EXTRACTORS = {**{f"src_{fn}": _src(fn) for fn in SRC_FUNCS}, "flag_codes": flag_codes, "priorities": priorities, "cf_safe": cf_safe, "fx_ops": fx_ops,
+EXTRACTORS = {**{f"src_{fn}": _src(fn) for fn in SRC_FUNCS}, "flag_codes": flag_codes, "config_layout": config_layout, "priorities": priorities, "cf_safe": cf_safe, "fx_ops": fx_ops,
               "defaults_valid": defaults_valid, "default_spike": default_spike, "default_flat": default_flat,
               "default_atten": default_atten, "default_location": default_location}
 
@@ -274,6 +313,15 @@ def lean_for(table: str, val) -> tuple[str, str]:
         return ("namespace IoosQc.Gen\nopen IoosQc.Np\n" + val + "end IoosQc.Gen\n"
                 f"theorem src_{fn}_same : @IoosQc.Gen.{fn} = @IoosQc.NpSrc.{fn} := rfl\n"
                 f"theorem src_{fn} {binders} : {stmt} := by\n  rw [src_{fn}_same]; exact {thm} {args}\n", f"src_{fn}")
+    if table == "config_layout":
+        chain, dk = val
+        if not (dk.isascii() and '"' not in dk and all(k == "depth" or (v.isascii() and '"' not in v) for k, v in chain)):
+            return None
+        items = ", ".join({"contexts": f'.contextsKey "{v}"', "streams": f'.streamsKey "{v}"', "depth": f".depthGe {v}"}[k] for k, v in chain)
+        return (f'theorem src_layout_ok : (([{items}] : List Pin.LayoutTest), "{dk}") = (Pin.layoutChain, "_stream") := by decide\n'
+                f"theorem src_layout (knownMod : String → Bool) (known : String → String → Bool) (cfg : J) :\n"
+                f'    Pin.configCallsWith knownMod known "{dk}" [{items}] cfg = configCalls knownMod known "_stream" cfg :=\n'
+                "  C07_pin_layout _ _ src_layout_ok knownMod known cfg\n", "src_layout")
     b = lambda x: "true" if x else "false"  # noqa: E731
     if table == "defaults_valid":
         return (f"theorem src_defaults_ok : (({b(val[0])}, {b(val[1])}) : Bool × Bool) = (Defaults.validStartInclusive, Defaults.validEndInclusive) := by decide\n"
